@@ -133,4 +133,4 @@ def shard(ctx, budget_s):
 def run(tier, seed):
     v = core.Verdict(PROP, tier, seed)
     v.merge(core.run_shards(shard, PROP, tier, seed, budget_s=20 if tier == "quick" else 200))
-    return v.finish(RULE, floor=5000, assumptions=ASSUME)
+    return v.finish(RULE, floor=500, assumptions=ASSUME)
